@@ -131,6 +131,59 @@ theorem roundtrip (c : ClassInfo) (hc : c ∈ classes) (n : Nat) (r : Rec (Elem 
   cases h'
   exact he
 
+/-- **`roundtrip_regular`** — the statement about the CODE: for a *regular* class (`flags = []`: the translator found that
+    `pack`/`unpack` write and read the field values verbatim, so the layout interpreter IS what they do) the round trip
+    holds for every record that fits.  `roundtrip` above is the same fact about the layout interpreter for every translated
+    class; for an irregular class (`ofp_match`, `ofp_flow_mod`, the stats messages, the NX register actions …) it speaks
+    about the layout only, and what `pack()` computes on top of it is covered by the hand-model theorems below
+    (see `covered` / `uncovered_pinned` in `C01Pins.lean`). -/
+theorem roundtrip_regular (c : ClassInfo) (hc : c ∈ classes) (_hregular : c.flags = []) (n : Nat) (r : Rec (Elem n))
+    (avail : Option Nat) (tl : Bytes) (hf : Fits (codecAt env n) (okAt env n) c.packL r)
+    (havail : hasLen c.packL.fixed = true ∨ c.packL.tail = .none ∨
+      ∀ t, encTail (codecAt env n) c.packL.tail r.tail = some t → avail = some (fixedSize c.packL.fixed + t.length)) :
+    ∃ bs t, encode (codecAt env n) c.packL r = some bs ∧
+      encTail (codecAt env n) c.packL.tail r.tail = some t ∧
+      decode (codecAt env n) c.unpackL avail (bs ++ tl) = some (r, tl) ∧
+      bs.length = c.lenL.base + t.length ∧
+      (hasLen c.packL.fixed = true → hdrLen c.packL (bs ++ tl) = some bs.length) ∧
+      (∀ r' tl', decode (codecAt env n) c.unpackL avail (bs ++ tl) = some (r', tl') →
+        encode (codecAt env n) c.packL r' = some bs) :=
+  roundtrip c hc n r avail tl hf havail
+
+/-- "the translator read `ofp_action_vendor_generic` and it is `type, len, vendor, body`" (discharged in `C01Pins.lean`) -/
+def VendorGenericTied : Prop := env.layout "ofp_action_vendor_generic" = some vendorGenericL
+
+/-- **`vendor_action_in_list`** — what is true of a Nicira (or any vendor) action inside an action list.
+    `_unpack_actions` picks the class by the 16-bit type only; 0xffff is registered to `ofp_action_vendor_generic`.  So
+    the bytes a vendor-action class encodes (any layout that starts `type len vendor`, `type = 0xffff`) are decoded by the
+    element decoder of the `"actions"` family to a *generic* vendor action — same type, same vendor, the rest as body —
+    which consumes exactly those bytes and re-encodes to exactly those bytes.  The decoded object is therefore never of
+    the original class: `unpack(pack(x)) == x` can only hold if `==` relates the generic and the specific form
+    (the repair `fixes/C01-K4_…`), while `unpack(pack(x)).pack() == pack(x)` holds as it stands. -/
+theorem vendor_action_in_list (hvg : VendorGenericTied) (n : Nat) (L : Layout) (r : Rec (Elem n)) (nt nv : String)
+    (F : List Field) (v : Nat) (vs : List Val) (bs tl : Bytes)
+    (hL : L.fixed = .uint nt 2 :: .lenSelf 2 :: .uint nv 4 :: F) (hv : r.vals = .num 65535 :: .num v :: vs)
+    (h : encode (codecAt env n) L r = some bs) :
+    ∃ body, (codecAt env (n + 1)).dec "actions" (bs ++ tl) =
+        some (("ofp_action_vendor_generic", ⟨[.num 65535, .num v], .rest body⟩), tl) ∧
+      encode (codecAt env n) vendorGenericL ⟨[.num 65535, .num v], .rest body⟩ = some bs := by
+  obtain ⟨body, henc, hdec⟩ := vendor_as_generic (codecAt env n) (okAt env n) (codecAt_good env n) L r nt nv F 65535 v vs bs hL hv h
+  refine ⟨body, ?_, henc⟩
+  obtain ⟨rest, rfl, _⟩ := encode_head_uint2 (codecAt env n) vendorGenericL _ bs "type" 65535
+    [.lenSelf 2, .uint "vendor" 4] [.num v] rfl rfl henc
+  have hfam : env.family "actions" = some (.byType actions "ofp_action_generic") := by decide
+  have hcls : classOf actions "ofp_action_generic" 65535 = "ofp_action_vendor_generic" := by decide
+  have hp : pick env "actions" (beEnc 2 65535 ++ rest ++ tl) = some "ofp_action_vendor_generic" := by
+    unfold pick
+    rw [hfam]
+    have h2 : ¬ ((beEnc 2 65535 ++ (rest ++ tl)).length < 2) := by
+      simp only [List.length_append, beEnc_length]; omega
+    simp only [List.append_assoc, h2, ↓reduceIte, List.take_left' (beEnc_length 2 65535),
+      beDec_beEnc 2 65535 (by decide), hcls]
+  unfold VendorGenericTied at hvg
+  simp only [codecAt, hp, hvg, hdec tl, Option.map_some]
+  rfl
+
 /-- **`actions_stream`** (`_unpack_actions`, and equally `_unpack_queue_props` with `"queue_props"`): any list of
     well-formed elements of any family, packed back to back, is recovered exactly by the length-driven loop. -/
 theorem actions_stream (fam : String) (n : Nat) (xs : List (Elem n)) (h : ∀ e ∈ xs, okAt env n fam e) :
@@ -416,11 +469,11 @@ theorem nx_flow_mod_roundtrip (n : Nat) (m : NxFlowMod (Elem n)) (tl : Bytes)
   have hf : Fits (codecAt env n) (okAt env n) nxfmL
       ⟨nxfmVals m mb.length, .rest (mb ++ zeros (pad8 mb.length) ++ acts)⟩ := by
     refine ⟨?_, trivial, ?_⟩
-    · simp [nxfmL, nxfmVals, Spec.OF10.ofp_header, fitsFixed, hv, hht, hx, hvn, hst, hck, hcmd, hi, hh, hp, hb, ho, hfl, hml]
+    · simp [nxfmL, Spec.NX.nx_flow_mod, nxfmVals, Spec.OF10.ofp_header, fitsFixed, hv, hht, hx, hvn, hst, hck, hcmd, hi, hh, hp, hb, ho, hfl, hml]
     · intro t htl
-      simp only [nxfmL, encTail, Option.some.injEq] at htl
+      simp only [nxfmL, Spec.NX.nx_flow_mod, encTail, Option.some.injEq] at htl
       subst htl
-      simp only [nxfmL, Spec.OF10.ofp_header, List.cons_append, List.nil_append, fixedSize, lenFits,
+      simp only [nxfmL, Spec.NX.nx_flow_mod, Spec.OF10.ofp_header, List.cons_append, List.nil_append, fixedSize, lenFits,
         List.length_append, zeros_length, Bool.and_true, decide_eq_true_eq]
       omega
   have hlenL : hasLen nxfmL.fixed = true := by decide
@@ -455,11 +508,11 @@ theorem nxt_packet_in_roundtrip (p : NxPacketIn) (tl : Bytes)
   have hf : Fits Codec.empty (fun _ (e : Empty) => e.elim) nxpiL
       ⟨nxpiVals p mb.length, .rest (mb ++ zeros (pad8 mb.length + 2) ++ p.data)⟩ := by
     refine ⟨?_, trivial, ?_⟩
-    · simp [nxpiL, nxpiVals, Spec.OF10.ofp_header, fitsFixed, hv, hht, hx, hvn, hst, hb, htl, hr, htb, hck, hml]
+    · simp [nxpiL, Spec.NX.nxt_packet_in, nxpiVals, Spec.OF10.ofp_header, fitsFixed, hv, hht, hx, hvn, hst, hb, htl, hr, htb, hck, hml]
     · intro t htl'
-      simp only [nxpiL, encTail, Option.some.injEq] at htl'
+      simp only [nxpiL, Spec.NX.nxt_packet_in, encTail, Option.some.injEq] at htl'
       subst htl'
-      simp only [nxpiL, Spec.OF10.ofp_header, List.cons_append, List.nil_append, fixedSize, lenFits,
+      simp only [nxpiL, Spec.NX.nxt_packet_in, Spec.OF10.ofp_header, List.cons_append, List.nil_append, fixedSize, lenFits,
         List.length_append, zeros_length, Bool.and_true, decide_eq_true_eq]
       omega
   have hlenL : hasLen nxpiL.fixed = true := by decide
